@@ -287,6 +287,30 @@ func (x *c19) allocateAndProbe(c *sim.RawClient, peer *sim.Peer, opts sim.AllocO
 	_ = callsBefore
 	// a different Allocate on the live 5-tuple: 437, nothing changes (model wrapper checks the code)
 	x.m.Allocate(c, sim.AllocOpts{Lifetime: sim.U32(uint32(1 + x.rng.Intn(3000)))})
+	if x.rng.Intn(3) == 0 && c.User != "solo" {
+		// ... also when it is signed by another user of the same socket (rotated credentials):
+		// the 5-tuple is busy whoever asks, and nobody's quota is consulted for it
+		u, pw := c.User, c.Pass
+		c.User, c.Pass = "bob", "pw-b"
+		if u == "bob" {
+			c.User, c.Pass = "alice", "pw-a"
+		}
+		tidO := x.w.NewTID()
+		bo := wire.NewBuilder(wire.MethodAllocate, wire.ClassRequest, tidO)
+		bo.Add(wire.AttrRequestedTransport, []byte{17, 0, 0, 0})
+		c.AddAuth(bo)
+		x.m.Track(c, tidO, wire.MethodAllocate)
+		ro := c.Exchange(bo.Bytes(), tidO)
+		c.User, c.Pass = u, pw
+		x.m.Audit(nil)
+		if ro == nil || ro.Class != wire.ClassError || ro.ErrorCode() != 437 {
+			x.rec.Violate("retransmit-different", "other-user-on-live-5tuple", "%s: Allocate by another user on the live 5-tuple answered %d, want 437", c.Name, codeOfMsg(ro))
+		}
+		if x.stateDigest() != before {
+			x.rec.Violate("errorpath-changed-state", "437/other-user", "%s: another user's Allocate on a live 5-tuple changed server state", c.Name)
+		}
+		x.rec.FP("allocate/on-live/other-user/%d", codeOfMsg(ro))
+	}
 	if x.rng.Intn(3) == 0 {
 		// ... also when its transaction id is the all-zero one
 		var zero [12]byte
